@@ -827,7 +827,7 @@ def poser_call(setups, names):
         MultiSetup_PoSER(ref_ind=[[0] for _ in setups], single_setups=setups, names=names)
         return None
     except Exception as e:  # noqa: BLE001
-        return type(e).__name__
+        return "ValueError" if isinstance(e, ValueError) else type(e).__name__   # "raises ValueError": a subclass of it is a ValueError
 
 
 LETTERS = ["one", "two", "three"]  # name alphabet (the model sees 0, 1, 2); lists over it contain repeats
@@ -1902,7 +1902,7 @@ def check_call_forms(ctx):
                     MultiSetup_PoSER(ref_ind=[[0], [0, 1]], single_setups=setups, names=names_)
                 got.append(("accepted", dg(po.ref_ind), list(po.names), [id(x) for x in po.setups]))
             except Exception as e:  # noqa: BLE001
-                got.append((type(e).__name__,))
+                got.append(("ValueError" if isinstance(e, ValueError) else type(e).__name__,))
         if got[0] != got[1] or (got[0][0] == "accepted") != valid or (not valid and got[0][0] != "ValueError"):
             ctx.fail("oracle", "MultiSetup_PoSER(ref_ind, single_setups, names): positional call %s, keyword call %s, the property says %s" % (
                 got[0][0], got[1][0], "accept" if valid else "ValueError"), case, key="C15:callform:poser")
